@@ -1,4 +1,8 @@
 import FmpRpc.Proofs.TransportInv
+import FmpRpc.Proofs.TransportInvBL
+import FmpRpc.Proofs.TransportInvBS6
+import FmpRpc.Proofs.TransportInvBC
+import FmpRpc.Proofs.TransportInvBH
 /-
   C11 — closing a transport releases every goroutine and table entry.
 -/
@@ -16,19 +20,26 @@ def inTable : CPc → Bool
     sends. -/
 theorem pending_exact (s : St) (hr : Reachable s) (q : Int) (c : Nat) :
     s.pending q = some c ↔ ((s.callers c).seq = q ∧ inTable (s.callers c).pc = true) := by
-  sorry
+  have h := (CInv_reachable s hr).pend q c
+  have e : inTable = inTab := by funext p; cases p <;> rfl
+  rw [e]; exact h
 
 /-- in particular: a call that has returned is not in the table -/
 theorem returned_call_removed (s : St) (hr : Reachable s) (c : Nat) (o : Out)
     (h : (s.callers c).pc = .ret o) : ∀ q, s.pending q ≠ some c := by
-  sorry
+  intro q hq
+  have h1 := (pending_exact s hr q c).mp hq
+  simp [h, inTable] at h1
 
 /-- the task table holds only handlers that were registered, under their own
     key, and — until the stop is initiated — have been started and not ended -/
 theorem tasks_exact (s : St) (hr : Reachable s) (q : Int) (h : Nat) (ht : s.tasks q = some h) :
     (s.handlers h).task = q ∧ h < s.nextHandler ∧
     (s.rStop = false → (s.handlers h).pc ≠ .exited) := by
-  sorry
+  have h1 := (HInv_reachable s hr).tasksOK q h ht
+  refine ⟨h1.1, h1.2.1, fun hs he => ?_⟩
+  have := h1.2.2 he
+  simp [hs] at this
 
 /-- library-internal steps (everything except what the user and the peer
     decide); a read on a closed connection fails, so `rFatal` counts as
@@ -69,12 +80,37 @@ theorem no_leak (s : St) (hr : Reachable s) (hclosed : s.once = .done) (hq : Qui
     s.w = .exited ∧ s.taskLoop = false ∧ (s.r = .idle ∨ s.r = .exited) ∧
     (∀ h, (s.handlers h).pc = .absent ∨ (s.handlers h).pc = .exited) ∧
     (∀ y, (s.sends y).async = true → (s.sends y).st = .completed) := by
-  sorry
+  have hK := KInv_reachable s hr
+  have hS := SInv_reachable s hr
+  obtain ⟨f1, f2, f3, f4, f5, f6, f7, f8, f9, f10⟩ := hK.done_flags hclosed
+  simp only [Quiescent, internalEnabled, not_or, not_exists, not_and] at hq
+  obtain ⟨hqc, hqn, hqx, q1, q2, q3, q4, q5, q6, q7, q8, q9, q10, q11, q12, q13, q14, q15, q16, q17, hqh, q18, hqk⟩ := hq
+  refine ⟨f10, f9, ?_, fun h => ?_, fun y hy => ?_⟩
+  · have hk0 := hqk 0
+    rcases r_progress s hK hS hclosed with h | h | h | h | h | h | h | h | h | h | h | h | h | h | h
+    all_goals first | exact Or.inl h | exact Or.inr h | (exfalso; simp_all)
+  · have hh1 := hqh h
+    have hh2 := hh h
+    rcases h_progress s hK hS hclosed h with h' | h' | h' | h' | h' | h' | h' | h'
+    all_goals first | exact Or.inl h' | exact Or.inr h' | (exfalso; simp_all)
+  · have hx := hqx y
+    rcases a_progress s hK hS hclosed y hy with h' | h'
+    · exact h'
+    · exfalso; simp_all
 
 /-- … and every caller and notifier has returned -/
 theorem no_api_call_left (s : St) (hr : Reachable s) (hclosed : s.once = .done) (hq : Quiescent s) (c n : Nat) :
     ((s.callers c).pc = .absent ∨ ∃ o, (s.callers c).pc = .ret o) ∧
     ((s.notifiers n).pc = .absent ∨ ∃ o, (s.notifiers n).pc = .ret o) := by
-  sorry
+  have hK := KInv_reachable s hr
+  simp only [Quiescent, internalEnabled, not_or, not_exists, not_and] at hq
+  obtain ⟨hqc, hqn, _⟩ := hq
+  have hc := hqc c
+  have hn := hqn n
+  refine ⟨?_, ?_⟩
+  · rcases c_progress s hK hclosed c with h | h | h | h | h | h | h | h | h | h | h | h | h | h | h
+    all_goals first | exact Or.inl h | exact Or.inr h | (exfalso; simp_all)
+  · rcases n_progress s hK hclosed n with h | h | h | h | h | h | h
+    all_goals first | exact Or.inl h | exact Or.inr h | (exfalso; simp_all)
 
 end FmpRpc.C11
